@@ -13,8 +13,15 @@ BYFILE = [('src/str.c', 'C01'), ('src/ustr.c', 'C01'), ('src/mbuff.c', 'C07'), (
           ('src/socket.c', 'C19'), ('src/url.c', 'C14'), ('src/mem.c', 'C15'), ('src/msgs.c', 'C20'), ('include/libast.h', 'C20'), ('src/builtin_hashes.c', 'C18'),
           ('src/objpair.c', 'C05'), ('src/obj.c', 'C05'), ('include/libast/obj.h', 'C05'), ('src/tok.c', 'C12'), ('src/strings.c', 'C12/C13/C17'),
           ('src/array.c', 'C02/C03/C04'), ('src/linked_list.c', 'C02/C03/C04'), ('src/dlinked_list.c', 'C02/C03/C04')]
-def prop_of(subj, files):
+# src/conf.c serves three properties: each fix is attributed to the property whose check produced its witness
+CONF = {'C10': ['84f9d83', 'c01f998', 'ed23a4e', 'cf9567c', '265d316', '7e1ce25', 'f638c12', '3521386', '78d0ba3'],
+        'C09': ['75645ea', '36fdf75', 'd1525b1'],
+        'C11': ['da9c253', 'de9ea78', '27f5448', '974c02a', '0de1e2a', '2c9ce5a', '53584c7', '21726e5', 'de4e2b8', 'dbffd58', '6169b3f', 'ad27e38', '96e43a0', 'c5caeb3',
+                '35c1340', 'b2014b0', 'f679b94', '4cd2e78', 'a2618ef', '949f715']}
+CONF_BY_HASH = {h: p for p, hs in CONF.items() for h in hs}
+def prop_of(subj, files, h=''):
     s = subj.lower()
+    if h[:7] in CONF_BY_HASH: return CONF_BY_HASH[h[:7]]
     if 'version_compare' in s: return 'C17'
     if 'set_program_name' in s: return 'C16'
     if 'condense_whitespace' in s or 'safe_strncpy' in s: return 'C13' if 'condense' in s else 'C16'
@@ -36,7 +43,7 @@ for rec in log.split('\x01'):
     h, subj, body = (rec.split('\x00') + ['', ''])[:3]
     if not subj.startswith('fix:'): continue
     files = files_of(h)
-    prop = prop_of(subj, files)
+    prop = prop_of(subj, files, h)
     wit = ''
     m = re.search(r'Witness[^:]*:\s*(.*)', body, flags=re.S)
     if m: wit = ' '.join(m.group(1).split())[:300]
